@@ -241,6 +241,13 @@ class Model:
         elif self.cfg.get('xa'):
             cap = 190
         xl = op.get('xl')
+        if xl and xl.get('rr', 8) < 4:
+            # very short Rock Ridge names next to exact ISO9660 lengths: the last characters of the serial (unique for < 36^k ops)
+            k = max(1, xl['rr'])
+            short = names.b36(n, 3).lower()[-k:]
+            base = {'iso': names.exact_iso_dir(n, xl.get('iso', 7), lead) if isdir else names.exact_iso_file(n, xl.get('iso', 10), lead),
+                    'rr': short, 'jol': names.exact_plain(n, xl.get('jol', 5), lead), 'udf': names.exact_plain(n, xl.get('udf', 7), lead)}
+            return base
         if xl and isdir:
             return {'iso': names.exact_iso_dir(n, xl.get('iso', 7), lead), 'rr': names.exact_plain(n, xl.get('rr', 8), lead),
                     'jol': names.exact_plain(n, xl.get('jol', 5), lead), 'udf': names.exact_plain(n, xl.get('udf', 7), lead)}
